@@ -39,6 +39,7 @@ def build(bus_standard="wishbone", csr_dw=32, paging=0x800, ordering="big", with
                   integrated_rom_size=0, integrated_sram_size=0x100, with_uart=False, with_timer=True, ident="", ident_version=False)
     elab.restore_stderr()
     soc.periph = Periph(with_mem)
+    soc.add_ram("scratch", origin=0x2000_0000, size=0x60)          # a region whose size is NOT a power of two (decoded on a 0x80 window): every published byte must answer
     m = wishbone.Interface(data_width=32, address_width=32, addressing="word")
     soc.bus.add_master("tb", m)
     soc.finalize(); elab.restore_stderr()
@@ -216,6 +217,19 @@ def c_soc(cfgname, **cfg):
         def goal(k, kidx=kidx):
             return z3.And(at(h.v(sarr[kidx]), k + 1) == at(h.v(m.dat_w), 0), *[at(h.v(o), k + 1) == at(h.v(o), 0) for o in sto.values()])
         out.append(prove(f"ens.region[sram[{kidx}]@{addr:#x}]", held(addr, True), goal))
+    # ---- the published extent of a memory region answers: first word, last word of [base, base+size) and the words around the largest power-of-two
+    # boundary inside it (the decoder is proved equal to its power-of-two window for ALL addresses in C06/C13, size_pow2 >= size for all sizes in C13:
+    # here the chain publication -> window -> memory cell is closed on the real SoC at the addresses where a too small window would show)
+    for rname_, memobj in (("sram", soc.sram.mem), ("scratch", soc.scratch.mem)):
+        rb, rs = js["memories"][rname_]["base"], js["memories"][rname_]["size"]
+        cells = h.ts.mems[memobj]; nwords = rs // 4; p2 = 1 << (nwords - 1).bit_length() >> 1
+        if len(cells) < nwords:
+            out.append(res(f"ens.region-extent[{rname_}]", "ensures", VIOLATED, 0, "executed", info=f"published size {rs:#x} but the memory has {len(cells)} words")); continue
+        for kidx in sorted({0, max(p2 - 1, 0), min(p2, nwords - 1), nwords - 1}):
+            addr = rb + 4 * kidx
+            def goal(k, kidx=kidx, cells=cells):
+                return z3.And(at(h.v(cells[kidx]), k + 1) == at(h.v(m.dat_w), 0), *[at(h.v(o), k + 1) == at(h.v(o), 0) for o in sto.values()])
+            out.append(prove(f"ens.region-extent[{rname_}[{kidx}]@{addr:#x} of {nwords} words]", held(addr, True), goal))
     ok_mem = js["memories"]["csr"]["base"] == csr_base and js["memories"]["sram"]["size"] == 0x100
     out.append(res("ens.regions-match-handler", "ensures", PROVED if ok_mem and all(js["memories"][n]["base"] == r.origin for n, r in soc.bus.regions.items() if n in js["memories"]) else VIOLATED, 0, "executed"))
     out.append(res("cover.accessors-parsed", "cover", OK if len(acc) >= 6 and any(len(v["write"]) > 1 for v in acc.values()) else VACUOUS, time.time() - t0, "csr.h parser", accessors=len(acc)))
